@@ -194,33 +194,52 @@ def case(ctx, i, rec):
     # on coalescent epoch [c_e, c_e+1): g(x) = A_e + B_e x, and
     # int x^m f(x) dx = Gamma(shape+m; rate c_e, rate c_e+1) / (Gamma(shape) rate^m), 30 digits
     sh, rt = mpmath.mpf(shape), mpmath.mpf(rate)
-    cbs = [mpmath.mpf(0)] + [coal(b, sizes, breaks) for b in breaks] + [mpmath.inf]
+    cbs0 = [mpmath.mpf(0)] + [coal(b, sizes, breaks) for b in breaks] + [mpmath.inf]
     tbs = [mpmath.mpf(0)] + [mpmath.mpf(b) for b in breaks]
     lg = mpmath.loggamma(sh)
-    m1 = mpmath.mpf(0)
-    m2 = mpmath.mpf(0)
-    mag1 = mpmath.mpf(0)
-    mag2 = mpmath.mpf(0)
-    for e_ in range(len(sizes)):
-        lo_, hi_ = cbs[e_], cbs[e_ + 1]
-        B = 2 * mpmath.mpf(sizes[e_])
-        A = tbs[e_] - B * lo_
-        I = [mpmath.gammainc(sh + m_, rt * lo_, rt * hi_) * mpmath.exp(-lg) / rt ** m_ for m_ in range(3)]
-        m1 += A * I[0] + B * I[1]
-        m2 += A * A * I[0] + 2 * A * B * I[1] + B * B * I[2]
-        # magnitudes of what is actually added: each interval mass is itself a difference
-        # of two regularised incomplete gamma values of order one
-        P = [mpmath.gammainc(sh + m_, 0, rt * hi_, regularized=True) + mpmath.gammainc(sh + m_, 0, rt * lo_, regularized=True)
-             for m_ in range(3)]
-        f1, f2 = sh / rt, sh * (sh + 1) / rt ** 2
-        mag1 += abs(A) * P[0] + B * f1 * P[1]
-        mag2 += A * A * P[0] + 2 * abs(A) * B * f1 * P[1] + B * B * f2 * P[2]
+
+    def moments(cbs):
+        m1 = mpmath.mpf(0)
+        m2 = mpmath.mpf(0)
+        mag1 = mpmath.mpf(0)
+        mag2 = mpmath.mpf(0)
+        for e_ in range(len(sizes)):
+            lo_, hi_ = cbs[e_], cbs[e_ + 1]
+            B = 2 * mpmath.mpf(sizes[e_])
+            A = tbs[e_] - B * lo_
+            I = [mpmath.gammainc(sh + m_, rt * lo_, rt * hi_) * mpmath.exp(-lg) / rt ** m_ for m_ in range(3)]
+            m1 += A * I[0] + B * I[1]
+            m2 += A * A * I[0] + 2 * A * B * I[1] + B * B * I[2]
+            # magnitudes of what is actually added: each interval mass is itself a difference
+            # of two regularised incomplete gamma values of order one
+            P = [mpmath.gammainc(sh + m_, 0, rt * hi_, regularized=True) + mpmath.gammainc(sh + m_, 0, rt * lo_, regularized=True)
+                 for m_ in range(3)]
+            f1, f2 = sh / rt, sh * (sh + 1) / rt ** 2
+            mag1 += abs(A) * P[0] + B * f1 * P[1]
+            mag2 += A * A * P[0] + 2 * abs(A) * B * f1 * P[1] + B * B * f2 * P[2]
+        return m1, m2, mag1, mag2
+
+    m1, m2, mag1, mag2 = moments(cbs0)
+    # backward error: the stored coalescent breakpoints carry the rounding of their own
+    # cancellation-prone sum (a few ulp of the largest partial sum, cf. tol_c above);
+    # the moments of the history with breakpoints moved by that much bound what it can cost
+    dc = mpmath.mpf(2e-15 * scale_c)  # ~9 ulp of the largest partial sum
+    bw_m = mpmath.mpf(0)
+    bw_v = mpmath.mpf(0)
+    for sgn in ([1] * 64, [-1] * 64, [(-1) ** k for k in range(64)], [(-1) ** (k + 1) for k in range(64)]):
+        pert = [cbs0[0]] + [max(cbs0[k] + sgn[k] * dc, cbs0[k] / 2) for k in range(1, len(cbs0) - 1)] + [cbs0[-1]]
+        if any(pert[k + 1] <= pert[k] for k in range(len(pert) - 2)):
+            continue
+        p1, p2, _, _ = moments(pert)
+        bw_m = max(bw_m, abs(p1 - m1))
+        bw_v = max(bw_v, abs((p2 - p1 * p1) - (m2 - m1 * m1)))
     var = m2 - m1 * m1
     gm, gv = ns / nr, ns / nr ** 2
     # the closed form sums terms of mixed sign (A_e = t_e - 2N_e c_e can dwarf the result):
     # judge against the magnitude of the terms, as for every cancellation-prone sum (DESIGN 3.4)
-    tol_m = 1e-6 * float(m1) + 1e-13 * float(mag1)
-    tol_v = 1e-6 * float(var) + 1e-13 * float(mag2 + mag1 * mag1)
+    tol_m = 1e-6 * float(m1) + 1e-13 * float(mag1) + 2 * float(bw_m)
+    tol_v = 1e-6 * float(var) + 1e-13 * float(mag2 + mag1 * mag1) + 2 * float(bw_v)
+    rec.maxi("gamma_backward_error_share_of_tolerance", float(2 * bw_v) / tol_v if tol_v > 0 else 0.0)
     em = abs(gm - float(m1)) / tol_m if np.isfinite(gm) else np.inf
     evv = abs(gv - float(var)) / tol_v if np.isfinite(gv) else np.inf
     rec.maxi("gamma_err_over_tolerance", max(em, evv) if np.isfinite(max(em, evv)) else 1e300)
